@@ -1,7 +1,7 @@
 (* Properties/C02.v — One addressing scheme: flatten, lookup, search and JSON pointers agree. *)
-From Coq Require Import List String Bool ZArith Arith.
+From Coq Require Import List String Bool ZArith Arith Permutation.
 From YT Require Import Base.Str Base.KV Model.Doc Model.Dom Model.Pointer Model.Path Model.Builder
-  Proofs.StrProofs Proofs.PathProofs Proofs.PropsPathProofs.
+  Proofs.StrProofs Proofs.PathProofs Proofs.PropsPathProofs Proofs.FrameProofs Proofs.RebuildProofs.
 Import ListNotations.
 Local Open Scope list_scope.
 
@@ -79,9 +79,28 @@ Theorem C02_canon_index_nat2s : forall i, List.length (la (nat2s i)) <= 18 -> ca
 Proof. exact canon_index_nat2s. Qed.
 Print Assumptions C02_canon_index_nat2s.
 
-(* Not proved (decided by the correspondence on every run, see DESIGN.md C02):
-   - rebuild_any_order : every_item_has_scalar d -> Permutation l (flatten d) ->
-                         flatten (fold_left add_value_at l empty) = flatten d   (as sets) *)
+(* Re-inserting every flattened (path, leaf) pair with AddValueAt, in ANY order (any permutation)
+   and into ANY starting document, makes every flattened path of the original resolve to its leaf
+   again: two different scalar positions of one tree always diverge, so a later write never
+   disturbs an earlier one (C03's frame theorem). *)
+Theorem C02_rebuild_any_order_complete : forall kvs (l : list (string * scalar)) start,
+  wf (Con kvs) = true -> keys_safe (Con kvs) = true ->
+  Permutation l (flatten (Con kvs)) ->
+  forall p v, In (p, v) (flatten (Con kvs)) ->
+  lookup p (Con (fold_left put_path l start)) = Some (Leaf v).
+Proof. exact rebuild_any_order_complete. Qed.
+Print Assumptions C02_rebuild_any_order_complete.
+
+Theorem C02_positions_diverge : forall d s1 v1 s2 v2,
+  wf d = true ->
+  In (s1, v1) (flatten_steps d) -> In (s2, v2) (flatten_steps d) -> s1 <> s2 -> diverge s1 s2.
+Proof. exact flatten_steps_diverge. Qed.
+Print Assumptions C02_positions_diverge.
+
+(* Not proved (decided by the correspondence on every run: the rebuilt document's whole Flatten is
+   compared): the converse half of the rebuild statement — starting from the EMPTY document, and
+   when every list item contains a scalar, the rebuilt document has no other leaves (no stray
+   padding nulls remain). *)
 
 (* non-vacuity: a list in a list in a list, digit-only keys *)
 Example C02_ex :
